@@ -38,7 +38,7 @@ def compare(R, X, b, stats, case, tag):
             continue
         wn, wd = expect.sources_view(alt)
         is_plain = X.kind == 'plain' or (X.kind == 'either' and alt is X.sig[-1])
-        if prog['route'] == 'param' and not is_plain:
+        if prog['route'] in ('param', 'param_shadow_lambda') and not is_plain:
             wd = dict((f, d + 1) for f, d in wd.items())
             wd[expect.ident(b.target)] = 0
         if gn != wn:
@@ -60,7 +60,7 @@ def compare(R, X, b, stats, case, tag):
     else:
         lab = lambda sig: dict((expect.label(f), d) for f, d in sig.sources['+depths'].items())
         stats.fail('C06/%s/depths/expected-%s' % (tag, X.kind), case,
-                   head + '\ndepths: got %r, expected %r%s\n%s' % (lab(R), lab(alt), ' (+1 and the partial object at 0)' if prog['route'] == 'param' else '', b.src))
+                   head + '\ndepths: got %r, expected %r%s\n%s' % (lab(R), lab(alt), ' (+1 and the partial object at 0)' if prog['route'] in ('param', 'param_shadow_lambda') else '', b.src))
     return False
 
 
